@@ -267,22 +267,41 @@ def run(ctx):
             evs[t] = [make_event(5, n2i['TRACE_DATA_NEWTHREAD'], tid, (0x20000000 + t, t, 0, 0)),
                       make_event(5, n2i['TRACE_STRING_NEWTHREAD'] | 3, tid, data=nm),
                       make_event(5, n2i['TRACE_DATA_EXEC'], tid, (nt + t, 0, 0, 0)),
-                      make_event(5, n2i['TRACE_STRING_EXEC'] | 3, tid, data=xm)]
+                      make_event(5, n2i['TRACE_STRING_EXEC'] | 3, tid, data=xm),
+                      # ... and an operation of its own: START, END (a bounded table of OPEN operations would sit there too)
+                      make_event(5, n2i['BSC_getpid'] | 1, tid, (0, 0, 0, 0)),
+                      make_event(5, n2i['BSC_getpid'] | 2, tid, (0, t & 0xffff, 0, 0))]
         order = list(range(1, nt + 1))
         merges = {'one thread after the other': [e for t in order for e in evs[t]],
-                  'record by record': [evs[t][j] for j in range(4) for t in order],
-                  'first thread last': [evs[t][j] for j in (0, 2) for t in order] + [evs[t][j] for j in (1, 3) for t in reversed(order)]}
+                  'record by record': [evs[t][j] for j in range(6) for t in order],
+                  'first thread last': [evs[t][j] for j in (0, 2, 4) for t in order] + [evs[t][j] for j in (1, 3, 5) for t in reversed(order)],
+                  'first thread spans the others': evs[1][:5] + [e for t in order[1:] for e in evs[t]] + evs[1][5:]}
+        # (relational: what thread 1 gets ALONE is the reference)
+        ps_ = TracesParser(codes_, {}, {})
+        try:
+            solo_tr = [r_ for r_ in (ps_.feed(e) for e in evs[1]) if r_ is not None and r_.ktraces[0].eventid == n2i['BSC_getpid']]
+        except Exception:
+            solo_tr = []
+        solo_ok = len(solo_tr) == 1 and len(solo_tr[0].ktraces) == 2
         for how, stream in merges.items():
             p_ = TracesParser(codes_, {}, {})
+            done = set()
             try:
                 for e in stream:
-                    p_.feed(e)
+                    r_ = p_.feed(e)
+                    if r_ is not None and e.eventid == n2i['BSC_getpid'] and len(r_.ktraces) == 2 and r_.ktraces[0].tid == r_.ktraces[1].tid == e.tid:
+                        done.add(e.tid)
             except Exception as ex:
                 ctx.violation('C05/many-threads-raised', '%d threads merged %s: %r' % (nt, how, ex), {'kind': 'schedule', 'b': {}})
                 continue
             bad = [t for t in order if p_.pids_names.get(t) != 'n%d' % t or p_.pids_names.get(nt + t) != 'x%d' % t
                    or p_.threads_pids.get(0x20000000 + t) != t]
             nbig += 1
+            lost = [t for t in order if 0x10000000 + t not in done]
+            if lost and solo_ok:
+                # alone, every thread's START / END gives its trace (C04); here it depends on how many other threads came between
+                ctx.violation('C05/many-threads-operation', '%d threads merged %s: %d threads did not get the trace of their own START / END (first: thread %d)'
+                              % (nt, how, len(lost), lost[0]), {'kind': 'schedule', 'b': {}})
             if bad:
                 ctx.violation('C05/many-threads-table', '%d threads merged %s: %d threads did not learn their process name / pid (first: thread %d)'
                               % (nt, how, len(bad), bad[0]), {'kind': 'schedule', 'b': {}})
